@@ -12,11 +12,11 @@ try:
     t = subprocess.run(["go", "test", "-vet=off", "-count=1", "."], cwd="/repo", env=env, capture_output=True, text=True)
     print("suite:", "PASS" if t.returncode == 0 else "FAIL")
     for pr in props:
-        for tier in (["thorough"] if "--thorough-only" in sys.argv else ["quick", "thorough"]):
+        for tier in (["thorough"] if "--thorough-only" in sys.argv else ["quick"] if "--quick-only" in sys.argv else ["quick", "thorough"]):
             t0 = time.time()
             c = subprocess.run(["/verif/check", pr, "--tier", tier], capture_output=True, text=True, env=env)
             lines = [l for l in c.stdout.splitlines() if l.startswith(("VIOLATION", "KNOWN", "DRIFT", "  what"))]
-            print("check %s %s rc=%d (%.0fs)" % (pr, tier, c.returncode, time.time() - t0)); print("\n".join(lines[:6]))
+            print("check %s %s rc=%d (%.0fs)" % (pr, tier, c.returncode, time.time() - t0)); print("\n".join(lines[:6]), flush=True)
             if c.returncode == 2: print(c.stderr[-1500:])
             if c.returncode == 1: break
 finally:
